@@ -358,16 +358,27 @@ pub fn draw_plan(seed: u64, index: u64) -> Plan {
         max_cap: 400,
         ..Profile::default()
     };
-    let base_n = rng.random_range(1..=5);
+    // one plan in 16 is a "long twins" plan: few tasks, thousands of opcodes each, so that the memo
+    // grows past 256 entries (the BINGET candidate filter and other large-memo paths are exercised
+    // under different hash keys)
+    let long_plan = rng.random_range(0..16) == 0;
+    let long_profile = Profile { long_bias: 1.0, max_cap: 6_000, mutators_p: 0.3, protocols: Some(vec![1, 2, 3, 4, 5]), ..profile.clone() };
+    let base_n = if long_plan { rng.random_range(1..=2) } else { rng.random_range(1..=5) };
     let mut tasks = vec![];
     let mut twins = vec![];
     for _ in 0..base_n {
-        let mut sc = if rng.random_range(0..4) == 0 { mix::draw_history(&mut rng, &profile, 3) } else { mix::draw_solo(&mut rng, &profile) };
+        let mut sc = if long_plan {
+            mix::draw_solo(&mut rng, &long_profile)
+        } else if rng.random_range(0..4) == 0 {
+            mix::draw_history(&mut rng, &profile, 3)
+        } else {
+            mix::draw_solo(&mut rng, &profile)
+        };
         sc.faults.clear();
         let a = tasks.len();
         tasks.push(sc.clone());
         // most tasks get a twin with another memo hash key
-        if rng.random_range(0..5) != 0 {
+        if long_plan || rng.random_range(0..5) != 0 {
             let mut t = sc.clone();
             t.hash_key = rng.random();
             twins.push((a, tasks.len()));
@@ -489,6 +500,12 @@ pub fn judge(plan: &Plan, stats: &mut Stats) -> PlanVerdict {
     }
     if get2 {
         stats.bump("probe.get_with_2plus_memo_keys(sims)");
+    }
+    if sim.outputs.iter().flatten().flatten().any(|o| {
+        let (ops, err) = crate::lexer::lex(o);
+        err.is_none() && crate::machine::run(&ops, true, false).max_memo > 256
+    }) {
+        stats.bump("probe.memo_gt_256_in_a_task(sims)");
     }
     PlanVerdict { violation, nontrivial: get2 || overlapped > 0, overlapped_twins: overlapped, colocated_workers: colocated, sim }
 }
